@@ -67,7 +67,7 @@ fn pc_for_branch(e: &mut Ent, len: u32, disp: i32) -> u32 {
 }
 
 fn even_target(e: &mut Ent) -> u32 {
-    e.data_addr(&[Region::Ram, Region::Dram], 2, 2)
+    e.jump_target()
 }
 
 pub fn build(e: &mut Ent, f: &Force) -> (StepCase, Tag) {
